@@ -76,7 +76,11 @@ EXHAUSTIVE_BIG = ("long files (2..4 lines per edit) with N scattered edits, N ar
                   "script form cycle")
 BUDGET = {"quick": 150, "thorough": 1500}
 
-POOL = ["a\n", "b\n", "c\n", "..\n", " .\n", ". \n", "1a\n", "2,3d\n", "\n", "é\n", ".x\n"]
+POOL = ["a\n", "b\n", "c\n", "..\n", " .\n", ". \n", "1a\n", "2,3d\n", "\n", "é\n", ".x\n",
+        # a line ends at "\n" and nowhere else: characters that str/bytes.splitlines() would also
+        # break at are ordinary text inside a line
+        "p\x0cq\n", "\x0c.\n", "x\ry\n", "z\r\n", "\x0b\n", "u\x85v\n", "\u2028w\n", "s\x1ct\x1du\x1e\n",
+        ".\r\n", "3d\r\n"]
 FORMS = ("list", "iter", "gen", "tuple")
 DIFFERS = ("lcs", "difflib", "diff-e")
 
